@@ -822,7 +822,7 @@ func (w *l2world) exec(op *sop, stats map[string]int) bool {
 		out.s("VF")
 		out.sb.WriteString(vf)
 		out.s("RW")
-		out.s(w.reachability())
+		out.s(w.reachability(op.before >= 4102444800))
 		o.s("vacuum")
 		o.i(op.c)
 		o.z(op.before)
@@ -1033,8 +1033,23 @@ func runL2History(g *gen, prof l2profile, nops int, stats map[string]int) (strin
 		case ch < 95:
 			do(&sop{kind: "version", c: c})
 		case ch < 97 && prof.vacuum:
-			if !intx[c] {
+			anyTx := false
+			for _, x := range intx {
+				anyTx = anyTx || x
+			}
+			if !anyTx {
 				do(&sop{kind: "vacuum", c: c, before: []int64{946684800, l2BaseSec + int64(g.r.Intn(9))*10, 4102444800}[g.r.Intn(3)]})
+				// a connection whose versions were just vacuumed away reads deleted objects until
+				// it refreshes ("until a vacuum whose cutoff covers them", C11): the other
+				// connections refresh before they go on
+				for oc := 0; oc < nconn; oc++ {
+					if oc != c {
+						do(&sop{kind: "refresh", c: oc})
+					}
+				}
+				if prof.roReader {
+					do(&sop{kind: "refresh", c: nconn})
+				}
 			}
 		default:
 			do(&sop{kind: "sel", c: c})
@@ -1260,7 +1275,12 @@ func replaySQL(r *tr) (string, string) {
 
 // reachability: every version object under root/current and root/merged decodes and every
 // node it reaches exists and decodes (walk of the whole bucket through the backend)
-func (w *l2world) reachability() string {
+// reachability walks the version objects and checks that every node they refer to exists and
+// decodes. currentOnly: the vacuum's cutoff covers every version (they are all older), so only
+// the versions under current/ are retained versions; superseded ones left under merged/ by a
+// vacuum that did not have them in its ancestry may lose nodes ("until a vacuum whose cutoff
+// covers them").
+func (w *l2world) reachability(currentOnly bool) string {
 	pfx := w.prefix + "/s3db-rows/"
 	get := func(key string) ([]byte, bool) {
 		obj, err := w.px.backend.GetObject(w.bucket, key, nil)
@@ -1308,7 +1328,11 @@ func (w *l2world) reachability() string {
 		}
 		return true
 	}
-	for _, sub := range []string{"root/current/", "root/merged/"} {
+	subs := []string{"root/current/", "root/merged/"}
+	if currentOnly {
+		subs = subs[:1]
+	}
+	for _, sub := range subs {
 		for _, k := range list(sub) {
 			b, ok := get(k)
 			if !ok {
